@@ -58,6 +58,8 @@ type SessResult struct {
 	Wedged   bool       `json:"wedged"`
 	Crashed  bool       `json:"crashed"` // the worker process died while running this session
 	CrashOut string     `json:"crash_out,omitempty"`
+	Timings  [][4]float64 `json:"timings"` // per timed call: call start, call return, arrival (ms since session start), line length
+	TimedLines []string `json:"timed_lines"`
 	Snap     []string   `json:"snap"`  // snapshot-isolation discrepancies (C13)
 	Marks    [][2]int   `json:"marks"` // (step index, lines written so far) at every successful barrier
 	Connect  string     `json:"connect"` // how Connect returned: "" (still running at the end), "nil", "errevent:<text>", "err:<text>"
@@ -248,6 +250,8 @@ func runSession(s *Session) *SessResult {
 
 	var wmu sync.Mutex
 	written := []string{}
+	arrivals := []time.Time{}
+	t0 := time.Now()
 	cond := make(chan struct{}, 1024)
 	go func() {
 		rd := bufio.NewReader(srvConn)
@@ -256,6 +260,7 @@ func runSession(s *Session) *SessResult {
 			if line != "" {
 				wmu.Lock()
 				written = append(written, strings.TrimSuffix(strings.TrimSuffix(line, "\n"), "\r"))
+				arrivals = append(arrivals, time.Now())
 				wmu.Unlock()
 				select {
 				case cond <- struct{}{}:
@@ -418,6 +423,45 @@ func runSession(s *Session) *SessResult {
 			}
 		case "close":
 			c.Close()
+		case "timedcall":
+			// lock-step sender: call the helper, then wait for its line to arrive at the server
+			wmu.Lock()
+			before := len(written)
+			wmu.Unlock()
+			tc := time.Now()
+			callHelper(c, st.Arg, st.Args)
+			tr := time.Now()
+			dl := time.Now().Add(6 * time.Second)
+			var ta time.Time
+			var line string
+			for time.Now().Before(dl) {
+				wmu.Lock()
+				if len(written) > before {
+					ta, line = arrivals[before], written[before]
+				}
+				wmu.Unlock()
+				if !ta.IsZero() {
+					break
+				}
+				time.Sleep(200 * time.Microsecond)
+			}
+			ms := func(t time.Time) float64 {
+				if t.IsZero() {
+					return -1
+				}
+				return float64(t.Sub(t0).Microseconds()) / 1000
+			}
+			res.Timings = append(res.Timings, [4]float64{ms(tc), ms(tr), ms(ta), float64(len(line))})
+			res.TimedLines = append(res.TimedLines, line)
+		case "lastarrival":
+			wmu.Lock()
+			if len(arrivals) > 0 {
+				res.Timings = append(res.Timings, [4]float64{-2, -2, float64(arrivals[len(arrivals)-1].Sub(t0).Microseconds()) / 1000, 0})
+				res.TimedLines = append(res.TimedLines, "<last arrival so far>")
+			}
+			wmu.Unlock()
+		case "lookups":
+			lookupsOp(c, res)
 		case "snap":
 			if !s.Cfg.DisableTracking {
 				snaps.op(c, st.Arg, res)
